@@ -372,6 +372,25 @@ func (ctx *RenderContext) GetVariable(name string) (interface{}, error) {
 	return nil, nil
 }
 
+// visibleVariables returns every variable this context can read: its own and those of the
+// enclosing contexts (inner scopes win). Used where a derived context is built from a copy.
+func (ctx *RenderContext) visibleVariables() map[string]interface{} {
+	if ctx.parent == nil {
+		return ctx.context
+	}
+	var chain []*RenderContext
+	for c := ctx; c != nil; c = c.parent {
+		chain = append(chain, c)
+	}
+	vars := make(map[string]interface{}, len(ctx.context))
+	for i := len(chain) - 1; i >= 0; i-- {
+		for k, v := range chain[i].context {
+			vars[k] = v
+		}
+	}
+	return vars
+}
+
 // GetVariableOrNil gets a variable from the context, returning nil silently if not found
 func (ctx *RenderContext) GetVariableOrNil(name string) interface{} {
 	value, _ := ctx.GetVariable(name)
